@@ -10,7 +10,11 @@ os.makedirs(d, exist_ok=True)
 kf = os.path.join(vlib.VERIF, "KNOWN_FINDINGS.txt")
 cur = open(kf).read()
 n = len([f for f in os.listdir(d) if f.startswith("auto_")])
+ev = os.path.join(vlib.VERIF, "evidence", pid + ".json")
+t_ev = os.path.getmtime(ev) if os.path.exists(ev) else 0
 for f in sorted(glob.glob(os.path.join(vlib.REPLAYS, pid, "*.json"))):
+    if os.path.getmtime(f) < t_ev - 7200:
+        continue        # a replay left by an older run (e.g. with a seeded change applied): not from the run being pinned
     r = json.load(open(f))
     key = r["key"]
     if f"property={pid} key={key} " in cur:
